@@ -439,12 +439,20 @@ func (r *rewriter) rewriteSelect(n *ast.SelectStmt) ast.Stmt {
 		var first ast.Stmt
 		switch s := cc.Comm.(type) {
 		case *ast.SendStmt:
-			r.errorf(s, "send case in select is not supported by the scheduler shim")
-			return n
+			// case ch <- v:  ->  the channel is evaluated on entry (as Go does), wrapped as a send case for Select; the
+			// send itself is the first statement of the chosen case
+			tmp := r.newTmp("sc")
+			lhs, rhs = append(lhs, tmp), append(rhs, s.Chan)
+			chans = append(chans, r.call("SendCase", tmp))
+			first = &ast.ExprStmt{X: r.call("SendNow", tmp, s.Value)}
 		case *ast.ExprStmt:
-			if ce, ok := s.X.(*ast.CallExpr); ok && isMcrtCall(ce, "Send") {
-				r.errorf(s, "send case in select is not supported by the scheduler shim")
-				return n
+			if ce, ok := s.X.(*ast.CallExpr); ok && isMcrtCall(ce, "Send") && len(ce.Args) == 2 {
+				// the send statement was already rewritten to mcrt.Send(ch, v)
+				tmp := r.newTmp("sc")
+				lhs, rhs = append(lhs, tmp), append(rhs, ce.Args[0])
+				chans = append(chans, r.call("SendCase", tmp))
+				first = &ast.ExprStmt{X: r.call("SendNow", tmp, ce.Args[1])}
+				break
 			}
 			recv = commRecvOf(s)
 			if recv == nil {
@@ -516,8 +524,14 @@ func (r *rewriter) rewriteCall(c *astutil.Cursor, n *ast.CallExpr) {
 		case r.isPkgFunc(n.Fun, "context", "WithCancel"):
 			n.Fun = r.mcrt("WithCancel")
 			r.stats["context.WithCancel"]++
+		case r.isPkgFunc(n.Fun, "context", "WithTimeout"):
+			n.Fun = r.mcrt("WithTimeout")
+			r.stats["context.WithTimeout"]++
+		case r.isPkgFunc(n.Fun, "context", "WithDeadline"):
+			n.Fun = r.mcrt("WithDeadline")
+			r.stats["context.WithDeadline"]++
 		case r.isPkgFunc(n.Fun, "time", "NewTimer"), r.isPkgFunc(n.Fun, "time", "Tick"), r.isPkgFunc(n.Fun, "time", "NewTicker"),
-			r.isPkgFunc(n.Fun, "time", "AfterFunc"), r.isPkgFunc(n.Fun, "context", "WithTimeout"), r.isPkgFunc(n.Fun, "context", "WithDeadline"):
+			r.isPkgFunc(n.Fun, "time", "AfterFunc"):
 			r.errorf(n, "real-time primitive %s is not modelled by the scheduler shim", exprString(n.Fun))
 		}
 	}
